@@ -10,6 +10,7 @@ import (
 
 	"hrverif/internal/absint"
 	"hrverif/internal/core"
+	"hrverif/internal/flow"
 )
 
 const (
@@ -439,9 +440,10 @@ func intConst(v absint.Value) int64 {
 func init() {
 	register(&Property{
 		ID:    "C06",
-		Rules: []string{"C06-R1", "C06-R2", "C06-R4", "C06-R5", "C06-R6"},
+		Rules: []string{"C06-R1", "C06-R2", "C06-R3", "C06-R4", "C06-R5", "C06-R6"},
 		Explain: "Decides the comparison logic and wiring of period selection: C06-R1 the interval predicate evaluated exhaustively over nil(begin) x nil(end) x ord(day,begin) x ord(day,end) equals begin<=day<=end and is stateless; " +
 			"C06-R2 the per-record callback hands a record to the reporter exactly when there is no error and (no filter or the filter accepts), and a rejected record neither stops nor fails the walk; " +
+			"C06-R3 every walk over the log is handed a filter that derives (value flow) from GetIntervalNodeFilter applied to Options.FilterConfig; " +
 			"C06-R4 --begin/--end, declared on the application and on commands, are read from the context lineage root-first so the innermost position wins; " +
 			"C06-R5 the keywords today/yesterday/last7/last30 derive from the supplied now and nothing derives from time.Now; " +
 			"C06-R6 the summary window is time.Date(Year,Month,Day of the requested date, 0:00 / last instant, the date's own Location).",
@@ -452,6 +454,7 @@ func init() {
 		Run: func(c *core.Ctx) {
 			ruleC06R1(c)
 			ruleC06R2(c)
+			ruleC06R3(c)
 			ruleLineage(c, "C06-R4", func(n string) bool { return n == "begin" || n == "end" })
 			ruleC06R5(c)
 			ruleC06R6(c)
@@ -576,5 +579,60 @@ func ruleC06R6(c *core.Ctx) {
 	}
 	if found == 0 {
 		c.Note(rule + ": package summary does not write filter bounds (vacuous)")
+	}
+}
+
+// C06-R3: every walk over the log is given a filter that derives from
+// GetIntervalNodeFilter applied to a configuration that derives from
+// Options.FilterConfig (field-based value flow).
+func ruleC06R3(c *core.Ctx) {
+	const rule = "C06-R3"
+	walk := c.P.LookupFunc(utilsPkg, "WalkNodesInStream")
+	get := c.P.LookupFunc(filterPkg, "GetIntervalNodeFilter")
+	optT := c.P.LookupType(optionsPkg, "Options")
+	if !requireAnchor(c, rule, "utils.WalkNodesInStream", walk != nil) || !requireAnchor(c, rule, "filter.GetIntervalNodeFilter", get != nil) || !requireAnchor(c, rule, "options.Options", optT != nil) {
+		return
+	}
+	fi := -1
+	for i, p := range walk.Params {
+		if strings.Contains(p.Type().String(), "LogNodeFilter") || strings.Contains(p.Type().String(), "func(t time.Time") {
+			fi = i
+		}
+	}
+	if fi < 0 {
+		c.Undecide(rule, core.FuncName(walk), "filter-param", c.P.Pos(walk.Pos()), "WalkNodesInStream has no filter parameter", nil)
+		return
+	}
+	g := buildFlow(c)
+	retNode := fmt.Sprintf("ret:%s@%d#0", get.String(), get.Pos())
+	cfgField := string(flow.FieldNode(optT, "FilterConfig"))
+	n := 0
+	for _, fn := range c.P.Funcs {
+		for _, b := range fn.Blocks {
+			for _, in := range b.Instrs {
+				ci, ok := in.(ssa.CallInstruction)
+				if !ok || ci.Common().StaticCallee() != walk {
+					continue
+				}
+				n++
+				fname := core.FuncName(fn)
+				pos := c.P.Pos(in.Pos())
+				c.Universe(rule+" walks over the log", fname+" ("+pos+")")
+				arg := ci.Common().Args[fi]
+				viaGet := g.Reaches(flow.ValueNode(arg), func(nd flow.Node) bool { return string(nd) == retNode })
+				viaCfg := g.Reaches(flow.ValueNode(get.Params[0]), func(nd flow.Node) bool { return string(nd) == cfgField })
+				switch {
+				case !viaGet:
+					c.Violate(rule, fname, "filter", pos, "the filter handed to the walk does not derive from GetIntervalNodeFilter: --begin/--end have no effect on this command", nil)
+				case !viaCfg:
+					c.Violate(rule, fname, "filter", pos, "the interval filter is not built from Options.FilterConfig", nil)
+				default:
+					c.Discharge(rule, fname, "filter", pos, "filter = GetIntervalNodeFilter(cfg) with cfg deriving from Options.FilterConfig")
+				}
+			}
+		}
+	}
+	if n == 0 {
+		c.Undecide(rule, core.FuncName(walk), "universe", c.P.Pos(walk.Pos()), "nobody calls WalkNodesInStream", nil)
 	}
 }
